@@ -203,6 +203,22 @@ def module_placement(ctx, ss):
                 st, mt = sim.t, sim.diseases.sis.t
                 if mt.npts != st.npts or not np.allclose(np.asarray(mt.tvec, dtype=float), np.asarray(st.tvec, dtype=float)) or not np.allclose(np.asarray(mt.yearvec, dtype=float), np.asarray(st.yearvec, dtype=float)):
                     ctx.violation(f'{key}: a module whose unit is the alias {al!r} of the sim unit has {mt.npts} time points (dt {mt.dt}, start {mt.start}); the sim has {st.npts} (dt {st.dt}, start {st.start})', key)
+    # a time specification accepted by the constructor survives later parameter updates that do not mention time
+    for simkw, modkw in ((dict(unit='year', dt=1.0, start=2000, dur=10), dict(dt=0.5)), (dict(unit='day', dt=1.0, start='2020-01-01', dur=63), dict(unit='week', dt=1.0)),
+                         (dict(unit='year', dt=0.5, start=2000, dur=6), dict(unit='year', dt=0.25, start=2001, stop=2004))):
+        key = dict(branch='later update_pars', sim=simkw, module=modkw)
+        try:
+            d1 = ss.SIS(**modkw); d2 = ss.SIS(**modkw); d2.update_pars(dict(imm_boost=2.0)); d2.update_pars(None, init_prev=0.02)
+            s1 = ss.Sim(n_agents=20, diseases=d1, networks=ss.RandomNet(), verbose=0, **simkw); s1.init()
+            s2 = ss.Sim(n_agents=20, diseases=d2, networks=ss.RandomNet(), verbose=0, **simkw); s2.init()
+        except Exception as E:
+            ctx.violation(f'{key}: raised {type(E).__name__}: {E}', key); continue
+        ctx.count(repr(key), nontrivial=True); ctx.dist('placement:later update_pars')
+        t1, t2 = s1.diseases.sis.t, s2.diseases.sis.t
+        if t1.npts != t2.npts or t1.unit != t2.unit or float(t1.dt) != float(t2.dt) or not np.allclose(np.asarray(t1.abstvec, dtype=float), np.asarray(t2.abstvec, dtype=float)):
+            ctx.violation(f'{key}: after update_pars(imm_boost=..) the module built with {modkw} has unit {t2.unit}, dt {t2.dt}, {t2.npts} time points; without that call it has unit {t1.unit}, dt {t1.dt}, {t1.npts} time points', key)
+    forced = [(dict(unit='year', dt=1.0, start=2000, dur=10), dict(unit='year', dt=0.5, start=2000, stop=2005)),      # same NUMBER of points as the sim, other instants
+              (dict(unit='day', dt=2.0, start='2020-01-01', dur=56), dict(unit='day', dt=1.0, start='2020-01-01', stop='2020-01-29'))]
     for c in range(ctx.n(30, 500)):
         branch = rng.choice(['numeric', 'year', 'days'])
         if branch == 'numeric':
@@ -217,6 +233,7 @@ def module_placement(ctx, ss):
         else:
             simkw = dict(unit=rng.choice(['day', 'week']), dt=rng.choice([1.0, 2.0, 7.0]), start='2020-02-01', dur=rng.choice([28, 56]))
             modkw = rng.choice([dict(unit='day', dt=1.0), dict(unit='day', dt=3.0), dict(unit='week', dt=1.0), dict(unit='week', dt=2.0)])
+        if c < len(forced): simkw, modkw = forced[c]; branch = 'numeric' if c == 0 else 'days'
         key = dict(branch=branch, sim=simkw, module=modkw)
         try:
             sim = ss.Sim(n_agents=20, diseases=ss.SIS(**modkw), networks=ss.RandomNet(), analyzers=ProbeAna(name='pana', **modkw), verbose=0, **simkw)
@@ -233,6 +250,14 @@ def module_placement(ctx, ss):
         for rk, res in sim.results.items():
             if isinstance(res, ss.Result) and len(res) != st.npts:
                 ctx.violation(f'{key}: sim result {rk} has {len(res)} entries, the sim has {st.npts} time points', key | dict(result=rk))
+        # the integration plan runs the module at its own instants
+        try:
+            plan = sim.loop.plan; pt = np.unique(np.round(np.asarray([float(t) for t, m in zip(plan.time, plan.module) if m == 'sis']), 9))
+            own = np.unique(np.round(np.asarray(mt.abstvec, dtype=float), 9))
+            if len(pt) != len(own) or not np.allclose(pt, own, atol=1e-8):
+                ctx.violation(f'{key}: the loop schedules the module at {pt[:4].tolist()}.. ({len(pt)} instants); its own timeline is {own[:4].tolist()}.. ({len(own)} instants)', key | dict(probe='plan-vs-timeline'))
+        except Exception as E:
+            ctx.violation(f'{key}: reading the integration plan raised {type(E).__name__}: {E}', key)
         # placement oracle: the module instants, as calendar years, relative to the sim start, in sim units
         a = np.asarray(mt.abstvec, dtype=float)
         if len(a) > 1 and (np.diff(a) <= 0).any(): ctx.violation(f'{key}: module placement on the sim axis is not increasing', key)
